@@ -376,33 +376,7 @@ func c04Try(c *Ctx, r *Result) {
 	r.Floor("R04c", nOther, 1)
 
 	// R04d: the except dispatch is gated by a classification of the error
-	classifiers := map[*ssa.Function]bool{}
-	for _, fn := range c.ModFuncs() {
-		if c.PkgOf(fn) != "interpreter" || fn.Signature.Params().Len() != 1 || fn.Signature.Results().Len() != 1 {
-			continue
-		}
-		if fn.Signature.Params().At(0).Type().String() != "error" || fn.Signature.Results().At(0).Type().String() != "bool" {
-			continue
-		}
-		asserts, cmps := false, false
-		allInstrs(fn, func(in ssa.Instruction) {
-			if ta, ok := in.(*ssa.TypeAssert); ok && strings.Contains(ta.AssertedType.String(), "returnValue") {
-				asserts = true
-			}
-			if bo, ok := in.(*ssa.BinOp); ok && (bo.Op == token.EQL || bo.Op == token.NEQ) {
-				for _, v := range []ssa.Value{bo.X, bo.Y} {
-					if u, ok := v.(*ssa.UnOp); ok {
-						if g, ok := u.X.(*ssa.Global); ok && (g.Name() == "ErrEndOfIteration" || g.Name() == "ErrContinueIteration") {
-							cmps = true
-						}
-					}
-				}
-			}
-		})
-		if asserts && cmps {
-			classifiers[fn] = true
-		}
-	}
+	classifiers := errorClassifiers(c)
 	var dispatch []ssa.Instruction
 	for _, e := range evals {
 		_ = e
@@ -764,4 +738,38 @@ func errCallLabel(call *ssa.Call, what string) string {
 		return accessPath(call.Call.Args[0]) + "." + what + "()"
 	}
 	return accessPath(call.Call.Value) + "()"
+}
+
+// errorClassifiers: functions error -> bool of package interpreter that recognise the control
+// signals travelling the error channel (assert the return-value type and compare the iteration
+// sentinels).
+func errorClassifiers(c *Ctx) map[*ssa.Function]bool {
+	classifiers := map[*ssa.Function]bool{}
+	for _, fn := range c.ModFuncs() {
+		if c.PkgOf(fn) != "interpreter" || fn.Signature.Params().Len() != 1 || fn.Signature.Results().Len() != 1 {
+			continue
+		}
+		if fn.Signature.Params().At(0).Type().String() != "error" || fn.Signature.Results().At(0).Type().String() != "bool" {
+			continue
+		}
+		asserts, cmps := false, false
+		allInstrs(fn, func(in ssa.Instruction) {
+			if ta, ok := in.(*ssa.TypeAssert); ok && strings.Contains(ta.AssertedType.String(), "returnValue") {
+				asserts = true
+			}
+			if bo, ok := in.(*ssa.BinOp); ok && (bo.Op == token.EQL || bo.Op == token.NEQ) {
+				for _, v := range []ssa.Value{bo.X, bo.Y} {
+					if u, ok := v.(*ssa.UnOp); ok {
+						if g, ok := u.X.(*ssa.Global); ok && (g.Name() == "ErrEndOfIteration" || g.Name() == "ErrContinueIteration") {
+							cmps = true
+						}
+					}
+				}
+			}
+		})
+		if asserts && cmps {
+			classifiers[fn] = true
+		}
+	}
+	return classifiers
 }
